@@ -67,6 +67,43 @@ fn maybe_helper(rng: &mut Rng, ind: &str, used: &mut Vec<&'static str>) -> Strin
     }
 }
 
+/// hand-written twins of rarely seen item shapes (one set per batch): const generic parameters, bare `const` / `type`
+/// tokens in a where clause, helpers on members of such items. No value is constructed for them: acceptance by rustc
+/// and the item-by-item comparison of the expansions decide
+fn rare_shapes(b: usize) -> Vec<GenItem> {
+    let mk = |name: String, kind: &'static str, body: &str, helpers: Vec<&'static str>| -> GenItem {
+        let annotated = format!("#[typeshare]\n{}", body.replace("@N@", &name));
+        let stripped: String = body.replace("@N@", &name).lines().filter(|l| !l.trim_start().starts_with("#[typeshare(")).map(|l| format!("{l}\n")).collect();
+        GenItem { name, annotated, stripped, value: None, kind, helpers }
+    };
+    vec![
+        mk(
+            format!("RareConstGen{b}"),
+            "const-generic-struct",
+            "#[derive(Serialize, Deserialize, Debug, Clone, PartialEq)]\npub struct @N@<const N: usize> {\n    pub label: String,\n    #[typeshare(serialized_as = \"String\")]\n    pub count: u32,\n    #[typeshare(skip)]\n    #[serde(skip)]\n    pub scratch: Option<[u8; N]>,\n}\n",
+            vec!["serialized_as", "skip"],
+        ),
+        mk(
+            format!("RareConstGenEnum{b}"),
+            "const-generic-enum",
+            "#[derive(Serialize, Deserialize, Debug, Clone, PartialEq)]\n#[serde(tag = \"t\", content = \"c\")]\npub enum @N@<const N: usize> {\n    Plain,\n    #[typeshare(skip)]\n    #[serde(skip)]\n    Hidden([u8; N]),\n    Rec {\n        #[typeshare(typescript(readonly))]\n        a: u8,\n    },\n}\n",
+            vec!["skip", "typescript(readonly)"],
+        ),
+        mk(
+            format!("RarePtrBound{b}"),
+            "where-clause-with-const-token",
+            "pub struct @N@<T>\nwhere\n    *const T: Send,\n{\n    #[typeshare(skip)]\n    pub raw: u32,\n    pub marker: std::marker::PhantomData<T>,\n}\n",
+            vec!["skip"],
+        ),
+        mk(
+            format!("RareTupleConstGen{b}"),
+            "const-generic-tuple-struct",
+            "pub struct @N@<const N: usize>(\n    #[typeshare(serialized_as = \"Vec<u8>\")]\n    pub [u8; N],\n);\n",
+            vec!["serialized_as"],
+        ),
+    ]
+}
+
 fn gen_item(rng: &mut Rng, k: usize) -> GenItem {
     let name = format!("Item{k}");
     let mut helpers: Vec<&'static str> = vec![];
@@ -350,7 +387,8 @@ pub fn run(ctx: &Ctx) -> (Spec, Report) {
     let mut rng = Rng::derive(ctx.seed, "C19", 0);
     let mut all_items: Vec<Vec<GenItem>> = vec![];
     for b in 0..batches {
-        let items: Vec<GenItem> = (0..per_batch).map(|k| gen_item(&mut rng, b * 10_000 + k)).collect();
+        let mut items: Vec<GenItem> = (0..per_batch).map(|k| gen_item(&mut rng, b * 10_000 + k)).collect();
+        items.extend(rare_shapes(b));
         // three bins per batch: stripped only, annotated only, both + comparison
         let main_cmp: String = {
             let mut m = String::from("fn main() {\n    let mut same = 0usize;\n");
@@ -557,7 +595,7 @@ pub fn run(ctx: &Ctx) -> (Spec, Report) {
     }
     let spec = Spec {
         level: "translation_validation",
-        rule: format!("{batches} batch(es) of {per_batch} generated items (structs with named / tuple / unit bodies, enums with unit / tuple / struct variants, unions, aliases, consts; generics, lifetimes, where-clauses; derive, serde, cfg, doc, allow attributes in any order; #[typeshare], #[typeshare::typeshare], #[::typeshare::typeshare] with every item-level argument; skip / serialized_as / per-language helper lists on fields, variants, struct-variant fields and tuple fields), each rendered as an annotated and a stripped twin: (a) both twins compiled by cargo/rustc against /repo/lib, plus {n_neg} negative twin pairs that must both be rejected; (b) -Zunpretty=expanded of the two modules compared item by item as syn token streams; (c) serde_json output and round trip of a value of every constructible type compared between the twins"),
+        rule: format!("{batches} batch(es) of {per_batch} generated items (structs with named / tuple / unit bodies, enums with unit / tuple / struct variants, unions, aliases, consts; generics, lifetimes, where-clauses; plus four hand-written rare shapes per batch - const generic struct / enum / tuple struct and a `*const T` bound, with helpers on their members; derive, serde, cfg, doc, allow attributes in any order; #[typeshare], #[typeshare::typeshare], #[::typeshare::typeshare] with every item-level argument; skip / serialized_as / per-language helper lists on fields, variants, struct-variant fields and tuple fields), each rendered as an annotated and a stripped twin: (a) both twins compiled by cargo/rustc against /repo/lib, plus {n_neg} negative twin pairs that must both be rejected; (b) -Zunpretty=expanded of the two modules compared item by item as syn token streams; (c) serde_json output and round trip of a value of every constructible type compared between the twins"),
         assumptions: vec![
             "doc comments are compared after syn's normalisation (/// x == #[doc = \" x\"])".into(),
             "the stripped twin is rendered by the generator, which knows where it put typeshare attributes".into(),
